@@ -323,3 +323,140 @@ for kind in ('number', 'rest'):
     key = '%s::EventStreamPlayer._play_and_delta#delta-is-a-%s' % (FE, kind)
     REGISTRY[key] = REGISTRY.pop('%s::EventStreamPlayer._play_and_delta' % FE)
     REGISTRY[key].key = key
+
+
+# ---- NoteEvent.play (C14, first sentence of the statement) -------------------------------------------------
+# exactly one synth-creation bundle at the server's latency carrying instrument name, a FRESH node id, the
+# add action number, the target group and the message parameters; followed - iff the event sends a gate -
+# by one gate-off bundle for the SAME node later by the event's sustain; the event is marked playing.
+SEND_GATE = z3.Bool('res.send_gate')
+
+
+def ne_call(eng, f, args, kwargs, st, node):
+    if is_ev(f) and len(args) == 1:
+        k = key_of(args[0], node)
+        st.trace.append(('resolve', k))
+        if k == 'server':
+            return [(st, V('obj', oid='server'))]
+        if k == 'send_gate':
+            return [(st, vbool(SEND_GATE))]
+        if k in ('sustain',):
+            return [(st, vreal(RES(k)))]
+        return [(st, V('obj', oid='res.' + k))]
+    return None
+
+
+def ne_setitem(eng, obj, idx, v, st, node):
+    if is_ev(obj):
+        st.trace.append(('set', key_of(idx, node), v))
+        return [('next', st)]
+    return None
+
+
+NE_METHODS = {'_detuned_freq': ('detuned', lambda: V('obj', oid='the-detuned-freq')),
+              '_get_msg_params': ('msg-params', lambda: vlist([V('obj', oid='param0'), V('obj', oid='param1')])),
+              '_synthdef_name': ('defname', lambda: V('obj', oid='the-defname'))}
+
+
+def ne_getattr(eng, obj, name, st, node):
+    if is_ev(obj) and name in NE_METHODS:
+        # methods mixed in from the partial events (PitchKeys, ServerKeys): own contracts / bounded driver
+        def meth(eng, args, kwargs, st, node, _n=name):
+            ev, mk = NE_METHODS[_n]
+            r = mk()
+            st.trace.append((ev, r))
+            return [(st, r)]
+        return [(st, V('func', py=('spec', meth)))]
+    if obj.k == 'obj' and obj.oid == 'server':
+        if name == '_next_node_id':
+            def nid(eng, args, kwargs, st, node):
+                v = vint(eng.fresh('fresh_node_id', z3.IntSort()))
+                st.trace.append(('next-id', v))
+                return [(st, v)]
+            return [(st, V('func', py=('spec', nid)))]
+        if name == 'addr':
+            return [(st, V('obj', oid='server.addr'))]
+        if name == 'latency':
+            return [(st, vreal(z3.Real('server.latency')))]
+    if obj.k == 'obj' and obj.oid == 'server.addr' and name == 'send_bundle':
+        def sb(eng, args, kwargs, st, node):
+            st.trace.append(('send_bundle', tuple(args)))
+            return [(st, NONE)]
+        return [(st, V('func', py=('spec', sb)))]
+    if obj.k == 'obj' and obj.oid == 'param' and name in ('_as_control_input', '_as_osc_arg_list'):
+        def conv(eng, args, kwargs, st, node, _o=obj, _n=name):
+            return [(st, V('obj', oid='converted', extra={'how': _n, 'of': _o.extra['of']}))]
+        return [(st, V('func', py=('spec', conv)))]
+    if obj.k == 'module' and name == 'Node':
+        return [(st, V('class', py='Node'))]
+    if obj.k == 'class' and obj.py == 'Node' and name == '_action_number_for':
+        def act(eng, args, kwargs, st, node):
+            r = V('obj', oid='action-number', extra={'of': args[0]})
+            return [(st, r)]
+        return [(st, V('func', py=('spec', act)))]
+    return None
+
+
+def ne_node_param(eng, selfv, args, kwargs, st, node):
+    return [(st, V('obj', oid='param', extra={'of': args[0]}))]
+
+
+def ne_traced(name, result):
+    def pol(eng, selfv, args, kwargs, st, node):
+        r = result(eng)
+        st.trace.append((name, r))
+        return [(st, r)]
+    return pol
+
+
+def play_post(c):
+    t = c.trace
+    ids = [e for e in t if e[0] == 'next-id']
+    sends = [e for e in t if e[0] == 'send_bundle']
+    sets = {e[1]: (i, e[2]) for i, e in enumerate(t) if e[0] == 'set'}
+    calls = {e[0]: i for i, e in enumerate(t) if e[0] in ('detuned', 'msg-params', 'defname')}
+    if len(ids) != 1 or not sends or len(sends) > 2 or 'freq' not in sets or 'msg-params' not in calls:
+        return z3.BoolVal(False)
+    nid = ids[0][1]
+    first = sends[0][1]
+    ok = (sets['freq'][0] < calls['msg-params']                                  # the detuned frequency is in place first
+          and len(first) == 2 and first[0].k == 'real' and first[1].k == 'obj' and first[1].oid == 'converted'
+          and first[1].extra['how'] == '_as_osc_arg_list')
+    if not ok:
+        return z3.BoolVal(False)
+    msg = first[1].extra['of']
+    ok = (msg.k == 'list' and msg.items is not None and len(msg.items) == 7
+          and msg.items[0].k == 'str' and msg.items[0].py == '/s_new'
+          and msg.items[1].k == 'obj' and msg.items[1].oid == 'the-defname'       # instrument (with variant)
+          and msg.items[2] is nid                                                 # the fresh id
+          and msg.items[3].k == 'obj' and msg.items[3].oid == 'action-number'
+          and msg.items[3].extra['of'].k == 'obj' and msg.items[3].extra['of'].oid == 'res.add_action'
+          and msg.items[4].k == 'obj' and msg.items[4].oid == 'converted' and msg.items[4].extra['how'] == '_as_control_input'
+          and msg.items[4].extra['of'].k == 'obj' and msg.items[4].extra['of'].oid == 'res.group'
+          and [x.oid for x in msg.items[5:]] == ['param0', 'param1']              # then the message parameters
+          and sets.get('is_playing', (0, NONE))[1].k == 'bool' and sets.get('node_id', (0, NONE))[1] is nid)
+    if not ok:
+        return z3.BoolVal(False)
+    cl = [first[0].z == z3.Real('server.latency'), sets['is_playing'][1].z]
+    if len(sends) == 2:
+        second = sends[1][1]
+        g = second[1] if len(second) == 2 else None
+        ok2 = (g is not None and second[0].k == 'real' and g.k == 'list' and g.items is not None and len(g.items) == 4
+               and g.items[0].k == 'str' and g.items[0].py == '/n_set' and g.items[1] is nid
+               and g.items[2].k == 'str' and g.items[2].py == 'gate' and g.items[3].k == 'int')
+        if not ok2:
+            return z3.BoolVal(False)
+        cl += [SEND_GATE, second[0].z == z3.Real('server.latency') + RES('sustain'), g.items[3].z == 0]
+    else:
+        cl.append(z3.Not(SEND_GATE))
+    return z3.And(*cl)
+
+
+contract(F, 'NoteEvent.play', props=('C14', 'C17'), params={'self': 'self'},
+         ensures=[('one-s_new-bundle-at-latency-with-fresh-id;gate-off-at-latency+sustain-iff-gated;marked-playing',
+                   play_post)],
+         hooks={'call': ne_call, 'setitem': ne_setitem, 'getattr': ne_getattr},
+         policies={'sc3/synth/_graphparam.py::node_param': ne_node_param},
+         fields={'NoteEvent': {}}, class_modules={'NoteEvent': F, 'ServerKeys': F, 'PitchKeys': F}, native=False,
+         note='two message parameters stand for the parameter list; key resolution, parameter selection and the '
+              'conversions are opaque here (their own contracts / the bounded driver)')
